@@ -23,7 +23,7 @@ RULE = ("scenario = MultiAntennaArray (1-5 antennas, delay vector all-zero / uns
 COMPONENTS = {"real": ["setigen.voltage.antenna.MultiAntennaArray / Antenna", "setigen.voltage.data_stream.DataStream / "
                        "BackgroundDataStream"], "stub": ["entropy seam (tripwire only)"]}
 ASSUMPTIONS = C10.ASSUMPTIONS
-PROBES = ["noise_estimate_refreshed_mid_observation", "delays_omitted", "delays_all_zero", "delays_unsorted", "delays_repeated", "cache_carry_over",
+PROBES = ["complex_background", "noise_estimate_refreshed_mid_observation", "delays_omitted", "delays_all_zero", "delays_unsorted", "delays_repeated", "cache_carry_over",
           "reset_between_requests", "request_just_above_max_delay", "two_pols", "rejected_request"]
 
 
@@ -62,6 +62,10 @@ def generate(rng, tier):
         return s
     bg = [src(0.9) for _ in range(pols)]
     own = [[src(0.7) for _ in range(pols)] for _ in range(n_ant)]
+    if rng.random() < 0.15:
+        # complex voltages (custom complex sources) in the background and in every antenna stream
+        for s_ in bg + [x for o in own for x in o]:
+            s_["customs"].append({"kind": "cexp", "a": rng.choice([1.0, 0.25, -2.0]), "f": rng.choice([0.5, 3.0, 40.0])})
     ops = []
     for _ in range(rng.randint(2, 10)):
         r = rng.random()
@@ -157,6 +161,8 @@ def execute(sc, ctx):
             ctx.hit("delays_repeated")
     if pols == 2:
         ctx.hit("two_pols")
+    if any(s_["customs"] for s_ in cfg["bg"]):
+        ctx.hit("complex_background")
     maxd = max(eff)
     try:
         arr = sv.MultiAntennaArray(num_antennas=n_ant, sample_rate=cfg["fs"], fch1=cfg["fch1"],
